@@ -9,7 +9,9 @@ oracle = (a) precedence: first of [cli, user section, FI-db section, DEFAULT sec
          sets the option, computed here independently and cross-checked with the Lean spec (`spec.first`);
          (b) persistence: effective values of a second run without the command-line options equal the first
          run's, for every CONFIGURABLE option; (c) the written file never gains a `password` key, a dry run
-         leaves the file untouched, the DEFAULT-section CLIENTUID never changes once created.
+         leaves the file untouched, the DEFAULT-section CLIENTUID never changes once created;
+         (d) persistence as an IFF (`persist.ok`, lean/OfxModel/Spec/PersistOk.lean): per option, the model's
+         `PersistOk` of the saving run == "the real next run kept the value".
 """
 import argparse
 import itertools
@@ -30,7 +32,9 @@ RULE = ("every CONFIGURABLE option x every subset of the places that can set it 
         "INI texts from the writer's range and hand-edited shapes (':' delimiter, comments, blank and continuation lines, "
         "duplicate sections/options, missing header, mixed-case keys, '%', ']' in headers, odd white space) -> sections / "
         "options / values or the error class, on a fresh parser and on one that already read another text; the witnesses "
-        "of every clause of the proved round-trip guard replayed on the real parser.")
+        "of every clause of the proved round-trip guard replayed on the real parser.  Persistence as an IFF: on every "
+        "write/rerun pair, for every CONFIGURABLE option, the model's PersistOk (proved equivalent to 'same value in effect "
+        "at the next run') against what the real second run kept; the loss class against the five known findings.")
 
 OH_KEYS = ("url", "org", "fid", "brokerid")
 LIST_BAD = set(",'\\")
@@ -525,6 +529,44 @@ def run(ctx):
     R.flush()
 
     # ------------------------------------------------------------------ D. write / rerun sequences
+    # persistence as an IFF (EXT-C18b): on every write/rerun pair the model's `PersistOk` (Spec/PersistOk.lean, proved
+    # equivalent to "same value in effect at the next run" by C18_persist_iff) is compared, option by option, with what
+    # the real second run kept
+    persist_queue = []
+    LOSS_OF_TAG = {"persist_cli_null_over_stored": "cliNull", "default_section_ignored_for_new_server": "defaultSectionIgnored",
+                   "persist_clientuid_equals_global": "uidEqualsGlobal", "persist_str_edge_blank": "strEdgeBlank",
+                   "persist_list_member_chars": "listMember"}
+
+    def flush_persist():
+        if not persist_queue:
+            return
+        replies = ctx.model.ask([line("persist.ok", pmap(c.ns), pfile(c.fidb), pfile(c.user), poh(c.oh), c.uuid)
+                                 for c, _, _, _ in persist_queue])
+        if all(rep.kind == "bad" and rep.raw.strip() == "(bad-op)" for rep in replies):
+            # a driver built before Drv/OfxgetPersist.lean was registered in Drv/All.lean: nothing to compare with
+            ctx.stat("persist:driver-op-missing", len(replies))
+            persist_queue.clear()
+            return
+        for (case, pcase, kept, tags), rep in zip(persist_queue, replies):
+            cj = {"write": case.json(), "rerun": pcase.json()}
+            if rep.kind != "ok" or rep.vals[0] == "none":
+                ctx.disagree("persist.ok", cj, {"kept": kept}, rep.raw)
+                continue
+            rows = {dstr(r[0]): r[1:] for r in rep.vals[0]}
+            model = {k: (rows[k][0] == "T") if k in rows else None for k in kept}
+            ctx.compare("persist.ok", cj, kept, model)
+            for k, r in rows.items():
+                ctx.stat("persist:" + r[1] + ":" + ("kept" if r[0] == "T" else r[2]))
+                if (r[0] == "T") != (r[3] == "T"):
+                    # an instance of C18_persist_iff evaluated on the model itself
+                    ctx.disagree("persist.iff-instance", dict(cj, option=k), "PersistOk = " + r[0], "model rerun kept = " + r[3])
+                if r[2] == "unexpected":
+                    ctx.disagree("persist.loss-unexpected", dict(cj, option=k), "a setting lost in none of the named ways", r)
+                want = LOSS_OF_TAG.get(tags.get(k))
+                if want is not None and r[0] == "F" and r[2] != want and k not in OH_KEYS:
+                    ctx.stat("persist-class-differs:" + want + "/" + r[2])
+        persist_queue.clear()
+
     def probe_ns(server):
         return {"request": "stmt", "verbose": 0, "server": server, "dryrun": True}
 
@@ -625,6 +667,8 @@ def run(ctx):
                 ctx.violate(tag, {"write": case.json(), "rerun": pcase.json()},
                             f"option {k!r}: in effect {eff1.get(k)} when saved, {eff2.get(k)} on the next run without the option",
                             {"option_type": CONF[k]})
+            if not merged["dryrun"]:
+                persist_queue.append((case, pcase, {k: eff1.get(k, MISSING) == eff2.get(k, MISSING) for k in CONF}, dict(tags)))
         return user
 
     def write_ns(server="srv1", **kw):
@@ -661,6 +705,7 @@ def run(ctx):
                 sequence([ns], fidb, user0, {"id1": ["https://oh.example/", "O", "F", None]}, f"d1 {k}")
                 n_d1 += 1
         R.flush()
+    flush_persist()
     ctx.exhaustive.append(f"persistence: every CONFIGURABLE option x value pool x stored-state ({n_d1} write+rerun pairs)")
 
     # D1c: real fi.cfg: a command-line value equal to the BUILT-IN default where fi.cfg overrides the option
@@ -677,6 +722,7 @@ def run(ctx):
                 n_real += 1
     ctx.stat("real-fidb-default-override-cases", n_real)
     R.flush()
+    flush_persist()
 
     # D1b: --clientuid equal to the global (DEFAULT-section) CLIENTUID while the server section stores another one
     for stored in ("S-OTHER", None):
@@ -703,7 +749,9 @@ def run(ctx):
         sequence(steps, fidb, rand_file(valid=True) if rng.random() < 0.5 else None, oh, f"seq{i}")
         if i % 50 == 49:
             R.flush()
+            flush_persist()
     R.flush()
+    flush_persist()
 
     # ------------------------------------------------------------------ E. leaf functions
     leaf = []
